@@ -225,6 +225,17 @@ def templates(ctx, rule):
                     if w not in ("s", "a", "g", "v", "id", "set", "fbid", "story_fbid") and len(w) > 2:
                         words.add((cls, w))
     ctx.require_instances(rule, len(words), 6, "route words in facebook url templates")
+    # a multi-segment template must carry a literal route word (else the parser reads it as a plain handle)
+    for cls in ("FacebookUser", "FacebookHandle", "FacebookGroup", "FacebookPost", "FacebookVideo", "FacebookPhoto"):
+        c = mod.klass(cls)
+        for node in ast.walk(c):
+            if isinstance(node, ast.Constant) and isinstance(node.value, str) and "%s" in node.value and "/" in node.value:
+                pathpart = node.value.split("?")[0]
+                segs = [sg for sg in pathpart.strip("/").split("/") if sg]
+                literal = [sg for sg in segs if "%s" not in sg]
+                ctx.ob(rule, "facebook/%s/template-has-route/%s" % (cls, node.value), len(segs) <= 1 or bool(literal),
+                       "%s.url is built from %r: several path segments and no literal route word, so parse_facebook_url reads the canonical url as a plain handle" % (cls, node.value), mod.site(node),
+                       witness="FacebookPhoto('123', parent_handle='page', album_id='456').url")
     for cls, w in sorted(words):
         ctx.ob(rule, "facebook/%s/route-%s" % (cls, w), ("'/%s" % w) in parser or ('"/%s' % w) in parser or ("/%s/" % w) in parser or w in parser,
                "%s.url uses the route '%s' which parse_facebook_url never dispatches on: the canonical url does not re-parse to the record" % (cls, w), mod.site(mod.klass(cls)))
@@ -259,6 +270,10 @@ def templates(ctx, rule):
             a = A.regex(rxq.pattern, rxq.flags, "fullmatch")
             key = "v" if name == "QUERY_V_RE" else "list"
             empty = A.regex("(?i:%s)=" % key if False else "[%s%s]%s=" % (key[0].lower(), key[0].upper(), "".join("[%s%s]" % (c.lower(), c.upper()) for c in key[1:])), 0, "fullmatch")
+            hashy = A.regex(r"[^\n]*#[^\n]*", 0, "fullmatch")
+            wh = A.witness(A.inter(a, hashy))
+            ctx.ob(rule, "youtube/%s/value-stops-at-fragment" % name, wh is None,
+                   "%s (searched in the whole url) can capture %r: the fragment is swallowed into the value and normalize_youtube_url is not idempotent" % (name, wh), ym.site(repo.const_node(ym, name)), witness="https://www.youtube.com/watch?v=92HWiOdpY2s&list=PL1#t=3")
             w = A.witness(A.inter(a, empty))
             ctx.ob(rule, "youtube/%s/value-non-empty" % name, w is None,
                    "%s matches %r with an empty value: 'watch?v=ID&list=' parses to playlist='' and its canonical url re-parses to playlist=None" % (name, w), ym.site(repo.const_node(ym, name)), witness="https://www.youtube.com/watch?v=92HWiOdpY2s&list=")
